@@ -62,7 +62,11 @@ RULE = ("op split / class_split: random ITS graphs = (a) fgutils.parse of genera
         "from_smiles, and, started from the generating graphs without fgutils' reader, ITS(get_its(G,H)) -> to_smiles -> "
         "from_smiles and from_smiles(written reaction) = get_its(G,H)): C/N/O skeletons with orders 1-3, metal-metal "
         "quadruple bonds ('$', Mo/W/Re/Cr with halide/C/O ligands, order 4 <-> 3/2/1/none), benzene/pyridine rings "
-        "(1.5) with substituent changes and side-chain triple bonds, templates inside the known-finding class; "
+        "(1.5) with substituent changes and side-chain triple bonds, biaryl systems with a SINGLE bond between two aromatic "
+        "atoms (RDKit-checked: biphenyl, phenylpyridine, bipyridyl, N-phenylpyrrole, fluorene, biphenylene; inter-ring bond "
+        "unchanged / formed (0,1) / broken (1,0), Suzuki-type, both as hand-written strings and written from source graphs), "
+        "templates inside the known-finding class; every fully mapped string is also compared with the superposition RDKit "
+        "itself reports (atoms by map number, Bond.GetBondTypeAsDouble), an oracle independent of fgutils' reader; "
         "op split_hist / its_split_hist: derivation histories -- the base graph OBJECTS first go through split_its (+ get_its) "
         "resp. get_its + split_its, the graphs under test are derived from those objects with Graph.copy / nx.relabel_nodes"
         "(copy=True|False) / subgraph(..).copy() / the same object, ids permuted, map numbers permuted / renumbered / dropped, "
@@ -273,6 +277,123 @@ def rand_aromatic_case(rng):
     return _written_case(g, h, "smiles_arom")
 
 
+# mapped reactions whose molecules contain a SINGLE bond between two aromatic atoms (checked with RDKit, see
+# has_aromatic_single_bond): biaryl bond formed / broken / unchanged, in-ring single bonds of fluorene and biphenylene
+BIARYL_TEMPLATES = [
+    # Suzuki coupling: bromobenzene + phenylboronic acid -> biphenyl (inter-ring bond formed (0,1))
+    "[cH:1]1[cH:2][cH:3][cH:4][cH:5][c:6]1[Br:7].[cH:8]1[cH:9][cH:10][cH:11][cH:12][c:13]1[B:14]([OH:15])[OH:16]>>"
+    "[cH:1]1[cH:2][cH:3][cH:4][cH:5][c:6]1-[c:13]1[cH:8][cH:9][cH:10][cH:11][cH:12]1.[Br:7][B:14]([OH:15])[OH:16]",
+    # the reverse: inter-ring bond broken (1,0)
+    "[cH:1]1[cH:2][cH:3][cH:4][cH:5][c:6]1-[c:13]1[cH:8][cH:9][cH:10][cH:11][cH:12]1.[Br:7][B:14]([OH:15])[OH:16]>>"
+    "[cH:1]1[cH:2][cH:3][cH:4][cH:5][c:6]1[Br:7].[cH:8]1[cH:9][cH:10][cH:11][cH:12][c:13]1[B:14]([OH:15])[OH:16]",
+    # 2-phenylpyridine by Suzuki coupling
+    "[cH:1]1[cH:2][cH:3][cH:4][n:5][c:6]1[Cl:7].[cH:8]1[cH:9][cH:10][cH:11][cH:12][c:13]1[B:14]([OH:15])[OH:16]>>"
+    "[cH:1]1[cH:2][cH:3][cH:4][n:5][c:6]1-[c:13]1[cH:8][cH:9][cH:10][cH:11][cH:12]1.[Cl:7][B:14]([OH:15])[OH:16]",
+    # biphenyl chlorination: inter-ring bond unchanged (1,1)
+    "[cH:1]1[cH:2][cH:3][cH:4][cH:5][c:6]1-[c:7]1[cH:8][cH:9][cH:10][cH:11][cH:12]1.[Cl:13][Cl:14]>>"
+    "[cH:1]1[cH:2][c:3]([Cl:13])[cH:4][cH:5][c:6]1-[c:7]1[cH:8][cH:9][cH:10][cH:11][cH:12]1.[ClH:14]",
+    # 2,2'-bipyridyl and N-phenylpyrrole, unchanged inter-ring bond, substituent exchanged
+    "[cH:1]1[cH:2][c:3]([Br:13])[cH:4][n:5][c:6]1-[c:7]1[n:8][cH:9][cH:10][cH:11][cH:12]1.[ClH:14]>>"
+    "[cH:1]1[cH:2][c:3]([Cl:14])[cH:4][n:5][c:6]1-[c:7]1[n:8][cH:9][cH:10][cH:11][cH:12]1.[BrH:13]",
+    "[cH:1]1[cH:2][c:3]([Br:12])[cH:4][cH:5][c:6]1-[n:7]1[cH:8][cH:9][cH:10][cH:11]1.[ClH:13]>>"
+    "[cH:1]1[cH:2][c:3]([Cl:13])[cH:4][cH:5][c:6]1-[n:7]1[cH:8][cH:9][cH:10][cH:11]1.[BrH:12]",
+    # fluorene by ring closure: the new bond is a single bond between aromatic atoms inside a five-ring
+    "[cH:1]1[cH:2][cH:3][cH:4][c:5]([Br:14])[c:6]1[CH2:7][c:8]1[cH:9][cH:10][cH:11][cH:12][cH:13]1>>"
+    "[cH:1]1[cH:2][cH:3][cH:4][c:5]2[c:6]1[CH2:7][c:8]1[cH:9][cH:10][cH:11][cH:12][c:13]-21.[BrH:14]",
+    # biphenylene (two in-ring single bonds between aromatic atoms), bromination
+    "[cH:1]1[cH:2][cH:3][cH:4][c:5]2[c:6]1-[c:7]1[cH:8][cH:9][cH:10][cH:11][c:12]-21.[Br:13][Br:14]>>"
+    "[cH:1]1[cH:2][c:3]([Br:13])[cH:4][c:5]2[c:6]1-[c:7]1[cH:8][cH:9][cH:10][cH:11][c:12]-21.[BrH:14]",
+]
+
+
+def has_aromatic_single_bond(smiles):
+    """RDKit reports a SINGLE bond between two aromatic atoms on some side (decided on the input)."""
+    import rdkit.Chem as Chem
+    for part in smiles.split(">>"):
+        mol = Chem.MolFromSmiles(part)
+        if mol is None:
+            continue
+        for b in mol.GetBonds():
+            if b.GetBondType() == Chem.rdchem.BondType.SINGLE and b.GetBeginAtom().GetIsAromatic() \
+                    and b.GetEndAtom().GetIsAromatic():
+                return True
+    return False
+
+
+def _add_ring(g, start, syms):
+    for i, sy in enumerate(syms):
+        g.add_node(start + i, symbol=sy)
+    for i in range(len(syms)):
+        g.add_edge(start + i, start + (i + 1) % len(syms), bond=1.5)
+
+
+def rand_biaryl_case(rng):
+    """Two aromatic rings (benzene / pyridine / N-attached pyrrole) joined by a SINGLE bond between aromatic atoms:
+    unchanged, formed (0,1) or broken (1,0) (Suzuki-type: halide + boronic acid); optionally a CH2 bridge (fluorene)
+    or a second ortho-ortho bond (biphenylene), so that the single bond lies inside a ring."""
+    r1 = rng.choice([["C"] * 6, ["C"] * 6, ["C", "N", "C", "C", "C", "C"], ["C", "C", "C", "N", "C", "C"]])
+    r2 = rng.choice([["C"] * 6, ["C"] * 6, ["C", "N", "C", "C", "C", "C"], ["N", "C", "C", "C", "C"]])
+    fused = rng.choice([None, None, None, "fluorene", "biphenylene"])
+    if fused and (r1[1] != "C" or r2[1] != "C" or r2[0] == "N"):
+        fused = None
+    g = nx.Graph()
+    _add_ring(g, 0, r1)
+    n1 = len(r1)
+    _add_ring(g, n1, r2)
+    a, b = 0, n1
+    nid = n1 + len(r2)
+    g.add_edge(a, b, bond=1)
+    if fused == "fluorene":
+        g.add_node(nid, symbol="C")
+        g.add_edge(1, nid, bond=1)
+        g.add_edge(n1 + 1, nid, bond=1)
+        nid += 1
+    elif fused == "biphenylene":
+        g.add_edge(1, n1 + 1, bond=1)
+    # a substituent somewhere else, exchanged on the other side
+    free = [i for i in list(range(2, n1)) + list(range(n1 + 2, n1 + len(r2))) if g.nodes[i]["symbol"] == "C"]
+    sub_at = rng.choice(free)
+    x, y = nid, nid + 1
+    g.add_node(x, symbol=rng.choice(["Cl", "Br", "C"]))
+    g.add_node(y, symbol=rng.choice(["Cl", "Br", "O"]))
+    g.add_edge(sub_at, x, bond=1)
+    nid += 2
+    h = gens.copy_exact(g)
+    mode = rng.choice(["unchanged", "formed", "formed", "broken"])
+    if mode == "unchanged" or r2[0] == "N":
+        mode = "unchanged"
+        h.remove_edge(sub_at, x)
+        h.add_edge(sub_at, y, bond=1)
+    else:
+        # the coupling partners: halide on a, boronic acid on b; they leave as X-B(O)(O)
+        hal, bor, o1, o2 = nid, nid + 1, nid + 2, nid + 3
+        for gr in (g, h):
+            gr.add_node(hal, symbol=rng.choice(["Br", "Cl"]) if gr is g else g.nodes[hal]["symbol"])
+            gr.add_node(bor, symbol="B")
+            gr.add_node(o1, symbol="O")
+            gr.add_node(o2, symbol="O")
+            gr.add_edge(bor, o1, bond=1)
+            gr.add_edge(bor, o2, bond=1)
+        nid += 4
+        g.remove_edge(a, b)             # the bond does not exist before the coupling
+        g.add_edge(a, hal, bond=1)
+        g.add_edge(b, bor, bond=1)
+        h.add_edge(hal, bor, bond=1)
+        if fused == "biphenylene":
+            pass                        # the second ortho-ortho bond is present on both sides
+    nums = list(range(1, nid + 1))
+    rng.shuffle(nums)
+    for i, k in zip(range(nid), nums):
+        g.nodes[i]["aam"] = k
+        h.nodes[i]["aam"] = k
+    if mode == "broken":
+        g, h = h, g
+    c = _written_case(g, h, "smiles_biaryl")
+    if not has_aromatic_single_bond(c["smiles"]):
+        raise ValueError("RDKit does not report a single bond between aromatic atoms here")
+    return c
+
+
 def gen_split(rng):
     r = rng.random()
     if r < 0.35:
@@ -298,6 +419,14 @@ def gen_split(rng):
     if r < 0.66:
         try:
             return rand_metal_case(rng) if r < 0.63 else rand_aromatic_case(rng)
+        except Exception:
+            pass
+    if r < 0.72:
+        try:
+            if r < 0.68:
+                smi = rng.choice(BIARYL_TEMPLATES)
+                return {"op": "smiles_split", "smiles": smi, "its": ITS.from_smiles(smi).graph, "src": "smiles_biaryl_tpl"}
+            return rand_biaryl_case(rng)
         except Exception:
             pass
     g = rand_its_graph(rng)
@@ -638,6 +767,8 @@ def classes(c, out):
                 yield "smiles_leg_order=%s" % o
         if "srcG" in c:
             yield "smiles_leg_source_graphs"
+        if has_aromatic_single_bond(c["smiles"]):
+            yield "smiles_leg_single_bond_between_aromatic_atoms"
         yield "smiles_leg=" + ("checked" if smiles_leg_applicable(c["smiles"]) else "not_fully_mapped")
         if in_known_class(c["smiles"]):
             yield "smiles_leg_known_class=" + ("fails" if smiles_round_trip(c["smiles"]) else "survives")
@@ -754,6 +885,45 @@ def ignore_aam_leg(c):
     return msgs
 
 
+def rdkit_view(smiles):
+    """The ITS of a mapped reaction SMILES computed with RDKit alone (no fgutils reader, no get_its): atoms carrying
+    a map number on both sides, and for each pair of them (order in reactants, order in products) from
+    Bond.GetBondTypeAsDouble(), 0 for not bonded, present when some side bonds the pair."""
+    import rdkit.Chem as Chem
+    sides = []
+    for part in smiles.split(">>"):
+        mol = Chem.MolFromSmiles(part)
+        atoms = {a.GetAtomMapNum(): a.GetSymbol() for a in mol.GetAtoms() if a.GetAtomMapNum() > 0}
+        bonds = {}
+        for b2 in mol.GetBonds():
+            ka, kb = b2.GetBeginAtom().GetAtomMapNum(), b2.GetEndAtom().GetAtomMapNum()
+            if ka > 0 and kb > 0:
+                o = b2.GetBondTypeAsDouble()
+                bonds[frozenset((ka, kb))] = int(o) if o == int(o) else o
+        sides.append((atoms, bonds))
+    (ag, bg), (ah, bh) = sides
+    nodes = {k: ag[k] for k in ag if k in ah}
+    edges = {}
+    for pair in set(bg) | set(bh):
+        if all(k in nodes for k in pair):
+            edges[pair] = (bg.get(pair, 0), bh.get(pair, 0))
+    return nodes, edges
+
+
+def rdkit_view_leg(c):
+    try:
+        want = rdkit_view(c["smiles"])
+        got = _its_view(ITS.from_smiles(c["smiles"]).graph)
+    except Exception as e:
+        return ["RDKit-view leg raised %s: %s" % (type(e).__name__, e)]
+    if got != want:
+        diff = sorted((sorted(k), got[1].get(k), want[1].get(k)) for k in set(got[1]) | set(want[1])
+                      if got[1].get(k) != want[1].get(k))
+        return ["ITS.from_smiles(%s) differs from the superposition RDKit itself reports (pair, fgutils, RDKit): %r; "
+                "nodes equal: %s" % (c["smiles"], diff[:6], got[0] == want[0])]
+    return []
+
+
 def _has_aromatic(view):
     return any(1.5 in lab for lab in view[1].values())
 
@@ -801,6 +971,7 @@ def py_invariants(c, out):
                 msgs.append(msg)
         if "srcG" in c and not in_known_class(c["smiles"]):
             msgs.extend(source_graph_leg(c))
+        msgs.extend(rdkit_view_leg(c))
         for m in ignore_aam_leg(c):
             msgs.append({"msg": m, "known_class": KNOWN_CLASS} if in_known_class(c["smiles"]) else m)
     return msgs
